@@ -57,6 +57,8 @@ type concShared struct {
 	// inputs
 	requests  [][]byte
 	anchored  []*operation.AnchoredOperation
+	updates   []*operation.AnchoredOperation // second operation of each DID (signed)
+	states    []*protocol.ResolutionModel    // state of each DID after its create
 	state     *protocol.ResolutionModel
 	docs      []map[string]any
 	patchSets [][]any
@@ -85,7 +87,7 @@ func (w *World) newConcShared(stepSeed string) *concShared {
 	s := w.Plan.Swarm
 	wl := w.wallet(0)
 	// distinct operations of distinct DIDs
-	for i := 0; i < 6; i++ {
+	for i := 0; i < 10; i++ {
 		d := &genDID{did: 100 + i}
 		cst := opStep(r, w.Pool, &s, d, ref.Create, ref.FNone, true)
 		cst.Builder = "raw"
@@ -99,6 +101,12 @@ func (w *World) newConcShared(stepSeed string) *concShared {
 		ust.Builder, ust.HasFrom, ust.HasUntil = "raw", false, false
 		if uop := wl.build(0, &ust); uop != nil {
 			c.requests = append(c.requests, uop.Bytes)
+			st0, aerr := w.Applier.Apply(c.anchored[len(c.anchored)-1], &protocol.ResolutionModel{})
+			if aerr == nil {
+				c.states = append(c.states, st0)
+				c.updates = append(c.updates, &operation.AnchoredOperation{Type: operation.Type(uop.Truth.Kind), UniqueSuffix: uop.Truth.Suffix,
+					OperationRequest: uop.Bytes, TransactionTime: uint64(Epoch + 100 + int64(i))})
+			}
 		}
 		var other []string
 		doc, cerr := ref.Compose(map[string]any{}, resolveForGen(w.Pool, genSetup(r, w.Pool, &s)))
@@ -115,7 +123,7 @@ func (w *World) newConcShared(stepSeed string) *concShared {
 		c.longDIDs = append(c.longDIDs, "did:ion:"+ref.ModelHash(ref.SHA256, sd)+":"+ref.B64(ref.JCS(map[string]any{"delta": delta, "suffixData": sd})))
 		c.createLF = append(c.createLF, ref.JCS(map[string]any{"type": "create", "delta": delta, "suffixData": sd}))
 		c.didDocs = append(c.didDocs, map[string]any{"keys": []any{map[string]any{"id": fmt.Sprintf("k%d", i), "type": "JsonWebKey2020", "key": i, "purposes": []any{"authentication", "assertionMethod"}},
-			map[string]any{"id": "second", "type": "JsonWebKey2020", "key": i + 3, "purposes": []any{"keyAgreement"}}}, "upd": i + 5, "rec": i + 6})
+			map[string]any{"id": "second", "type": "JsonWebKey2020", "key": i + 3, "purposes": []any{"keyAgreement"}}}, "upd": i + 5, "rec": i + 16})
 	}
 	if len(c.anchored) > 0 {
 		c.state, _ = w.Applier.Apply(c.anchored[0], &protocol.ResolutionModel{})
@@ -179,6 +187,15 @@ func (c *concShared) run(call concCall) (out string) {
 			return "none"
 		}
 		rm, err := w.Applier.Apply(a, &protocol.ResolutionModel{})
+		return digest(rm, err)
+	case "apply2":
+		// a signed operation against the state its DID is in: signature verification, delta binding, composition
+		u, ok := pick(c.updates, call.I)
+		st0, _ := pick(c.states, call.I)
+		if !ok {
+			return "none"
+		}
+		rm, err := w.Applier.Apply(u, st0)
 		return digest(rm, err)
 	case "compose":
 		d, ok := pick(c.docs, call.I)
@@ -346,6 +363,8 @@ func (w *World) execConcurrent() {
 	if len(tasks) == 0 {
 		return
 	}
+	// this run signs with key material the process has not seen before
+	w.Pool = w.Pool.WithFresh(core.NewRNG(w.Plan.Seed).Stream("c20/fresh-keys"), 6)
 	shared := w.newConcShared("0")
 	s := &coSched{planned: append([]int{}, w.Plan.Schedule...), rngState: core.NewRNG(w.Plan.Seed).Stream("sched").Uint64(),
 		switchPc: uint64(w.Plan.Swarm.NetMaxDelay), maxSteps: 60000, sites: map[string]int{}}
@@ -446,7 +465,7 @@ func stamp(s *coSched) int64 {
 	return s.steps
 }
 
-var concComps = []string{"parse", "reveal", "apply", "compose", "transform", "resolve", "process", "vdr-read", "vdr-create", "verprovider"}
+var concComps = []string{"parse", "reveal", "apply", "apply2", "apply2", "compose", "transform", "resolve", "process", "vdr-read", "vdr-create", "verprovider"}
 
 // GenConcurrent generates C20 plans: 2-6 tasks of 3-10 calls on shared instances; overlapping registry names.
 func GenConcurrent(seed uint64, pool *Pool) *Plan {
